@@ -48,7 +48,7 @@ pub fn explore_all(
     progs: &[(Program, Mode)],
     shard: Shard,
     rep: &mut Report,
-    mk_opts: &dyn Fn() -> RunOpts,
+    mk_opts_for: &dyn Fn(usize) -> RunOpts,
     check: ProgCheckfn,
     cap: u64,
 ) {
@@ -103,6 +103,7 @@ pub fn explore_all(
         if (pi as u64) % n != shard.index {
             continue;
         }
+        let mk_opts = &|| mk_opts_for(pi);
         // determinism self-test: the default schedule twice
         let a = sched::run_schedule(prog, &[], mk_opts());
         let b = sched::run_schedule(prog, &[], mk_opts());
@@ -142,6 +143,7 @@ pub fn explore_all(
                 }
             }
         };
+        let mk_opts = &|| mk_opts_for(pi);
         let mine: Vec<sched::Item> = items.into_iter().enumerate().filter(|(i, _)| (*i as u64) % n == shard.index).map(|(_, it)| it).collect();
         let acc = &mut accs[pi];
         let mut chk = mk_check!(pi, prog, acc);
@@ -161,7 +163,7 @@ pub fn explore_all(
         }
         for (sig, msg, choices) in std::mem::take(&mut acc.violations) {
             // confirm by replaying the exact schedule: the same schedule must fail every time
-            let again = sched::run_schedule(prog, &choices, mk_opts());
+            let again = sched::run_schedule(prog, &choices, mk_opts_for(pi));
             let still = check(pi, &again);
             if !still.iter().any(|(s, _)| *s == sig) && sig != "hang" {
                 eprintln!("MACHINERY: violation {} of {} did not reproduce on replay", sig, prog.name);
@@ -174,7 +176,7 @@ pub fn explore_all(
 
 fn prop_prefix(prop: &str) -> &'static str {
     match prop {
-        "C01" => "content",
+        p if p.starts_with("C01") => "content",
         "C04" => "history",
         "C05" => "concurrency",
         _ => "progress",
